@@ -109,6 +109,12 @@ impl Completions {
     }
 
     pub(crate) fn drop(&mut self, shared: &Shared) {
+        // Don't accept new submissions, we'll submit everything that is queued
+        // (while holding the lock) below, after this no one will.
+        let submissions_guard = lock(&shared.submissions_lock);
+        shared.ring_dropped.store(true, Ordering::Relaxed);
+        mem::drop(submissions_guard);
+
         // Submit any pending operations, mainly aiming to submit clean up
         // operations such as asynchronously closing fds, etc.
         let mut flags = 0; // Only submit.
